@@ -285,11 +285,71 @@ static void fam_c01_pagecycle(G& g, Plan& p) {
     size_t nfree = g.chance(0.5) ? n : n - g.below(n / 2 + 1);
     for (size_t i = 0; i < nfree; i++) { P.ops.push_back(mk(OP_free, idx[i])); if (g.chance(0.02)) P.ops.push_back(mk(OP_collect, -1, g.below(2))); if (g.chance(0.01)) P.ops.push_back(mk(OP_advance, -1, 11)); }
     if (g.chance(0.5)) P.ops.push_back(mk(OP_collect, -1, g.below(2)));
+    if (g.chance(0.5)) {   // another (usually smaller) size class takes over page slots that were just released, before the first class is used again
+      size_t b2 = bs[g.below(40)]; size_t req2 = b2 > 8 && g.padded ? b2 - 8 : b2; int m2 = 1 + (int)g.below(40);
+      for (int i = 0; i < m2; i++) P.ops.push_back(mk(OP_malloc, 580 + (i % 20), req2));
+    }
     size_t refill = g.below(n + 1);
     for (size_t i = 0; i < refill; i++) P.ops.push_back(mk(OP_malloc, idx[i], req));
     P.ops.push_back(mk(OP_verify_all));
     if (g.chance(0.6)) P.ops.push_back(mk(OP_free_all));
   }
+}
+
+
+// page-granular choreography of one small size class: whole pages are filled, partly or completely freed (oldest / newest first),
+// refilled, and another size class is allocated in between, so that pages walk through every queue position (first, full queue,
+// re-appended, retired, released and re-used for another class) in many orders
+static void fam_c01_pagequeue(G& g, Plan& p) {
+  p.nslots = 3800; p.progs.resize(1); Program& P = p.progs[0];
+  auto bs = bin_sizes();
+  size_t b = bs[8 + g.below(33)]; if (b > 1024 && g.chance(0.85)) b = bs[8 + g.below(25)];      // mostly classes served by the small-block fast path
+  size_t req = (g.padded && b > 8) ? b - 8 : b;
+  size_t per_page = (64 * KiB) / b; if (per_page < 4) per_page = 4; if (per_page > 300) per_page = 300;
+  size_t b2 = bs[4 + g.below(36)]; size_t req2 = (g.padded && b2 > 8) ? b2 - 8 : b2;
+  const int hs = g.chance(0.25) ? 0 : -1; if (hs >= 0) P.ops.push_back(mkh(OP_heap_new, 0));
+  std::vector<std::vector<int>> groups(1); int next_slot = 0; const int SPARE0 = 1100; int spare_n = 0;
+  auto alloc_one = [&]() { if (next_slot >= 1090) return; if (groups.back().size() >= per_page) groups.emplace_back(); Op o = mk(OP_malloc, next_slot, req - g.below(2)); o.hslot = hs; P.ops.push_back(o); groups.back().push_back(next_slot++); };
+  int steps = 12 + (int)g.below(40);
+  const bool tight = g.chance(0.6);     // tight: a short dance of a few moves on whole pages, with page boundaries taken from the addresses at run time
+  if (tight) {
+    // class-1 blocks of the k-th fill live in slots [k*W, (k+1)*W); refs[k] = k*W is a block of the page that fill completed
+    const int W = (int)per_page + 8; std::vector<int> refs; int nfill = 0;
+    auto fill = [&]() { if ((nfill + 1) * W > 3600) return; Op o = mk(OP_fill_page, nfill * W, req - g.below(2), (uint64_t)W, (uint64_t)W); o.hslot = hs; P.ops.push_back(o); refs.push_back(nfill * W); nfill++; };
+    int nfull = 1 + (int)g.below(2); for (int i = 0; i < nfull; i++) fill();
+    steps = 6 + (int)g.below(8);
+    for (int st = 0; st < steps; st++) {
+      int mv = g.pick({0, 0, 0, 1, 1, 2, 2, 2, 3, 3, 3, 4, 4, 5});
+      if (mv == 0) fill();                                                                                  // fill the page in use and open the next one
+      else if (mv == 1) { int m = 1 + (int)g.below(2); for (int k = 0; k < m; k++) { Op o = mk(OP_malloc, 3600 + (int)g.below(90), req); o.hslot = hs; P.ops.push_back(o); } }   // take one or two
+      else if (mv == 2) { if (refs.empty()) continue; size_t ri = g.chance(0.5) ? g.below(refs.size()) : refs.size() - 1; P.ops.push_back(mk(OP_free_page, refs[ri], 1, g.below(2), 1 + g.below(2))); }   // free one or two blocks of a page
+      else if (mv == 3) { if (refs.empty()) continue; size_t ri = g.chance(0.5) ? g.below(refs.size()) : refs.size() - 1; P.ops.push_back(mk(OP_free_page, refs[ri], g.chance(0.7) ? 0 : 1, g.below(2), 0)); }   // free a page completely (or all but one)
+      else if (mv == 4) { int m = 1 + (int)g.below(3); for (int k = 0; k < m; k++) { Op o = mk(OP_malloc, 3700 + (spare_n++ % 90), req2); o.hslot = hs; P.ops.push_back(o); } }   // the other class
+      else { if (g.chance(0.5)) P.ops.push_back(mk(OP_free, 3700 + (int)g.below(90))); else P.ops.push_back(mk(OP_collect, -1, 0)); }
+    }
+    P.ops.push_back(mk(OP_verify_all));
+    return;
+  }
+  for (int st = 0; st < steps; st++) {
+    int a = (int)g.below(100);
+    if (a < 40) {   // allocate
+      int k = (int)g.below(5); size_t m = k == 0 ? 1 : k == 1 ? 2 : k == 2 ? per_page / 2 : k == 3 ? per_page : (per_page - groups.back().size() % per_page);
+      if (m > 320) m = 320;
+      for (size_t i = 0; i < m; i++) alloc_one();
+    } else if (a < 78) {   // free part of one page-group
+      if (groups.empty()) continue;
+      size_t gi = g.chance(0.4) ? 0 : g.chance(0.5) ? groups.size() - 1 : g.below(groups.size());
+      auto& grp = groups[gi]; if (grp.empty()) continue;
+      int k = (int)g.below(6); size_t m = k == 0 ? 1 : k == 1 ? 2 : k == 2 ? grp.size() / 2 : k == 3 ? (grp.size() > 1 ? grp.size() - 1 : 1) : grp.size();
+      for (size_t i = 0; i < m && !grp.empty(); i++) { size_t j = g.chance(0.5) ? grp.size() - 1 : g.below(grp.size()); P.ops.push_back(mk(OP_free, grp[j])); grp.erase(grp.begin() + (long)j); }
+      if (grp.empty() && groups.size() > 1) groups.erase(groups.begin() + (long)gi);
+    } else if (a < 92) {   // the other size class
+      int m = 1 + (int)g.below(12);
+      for (int i = 0; i < m; i++) { if (g.chance(0.7)) { Op o = mk(OP_malloc, SPARE0 + (spare_n++ % 90), req2); o.hslot = hs; P.ops.push_back(o); } else P.ops.push_back(mk(OP_free, SPARE0 + (int)g.below(90))); }
+    } else if (a < 96) P.ops.push_back(mk(OP_collect, -1, g.below(2)));
+    else P.ops.push_back(mk(OP_verify_all));
+  }
+  P.ops.push_back(mk(OP_verify_all));
 }
 
 // mixes of small (1 slice), medium (8 slices) and large pages so that span split/coalesce sees every neighbour combination
@@ -1513,7 +1573,7 @@ static void fam_c07_random(G& g, Plan& p) {
 // C14: concurrent arena claims
 // ---------------------------------------------------------------------------------
 static void fam_c14_arena(G& g, Plan& p) {
-  size_t B = g.pick<size_t>({40, 66, 70, 130});
+  size_t B = g.pick<size_t>({40, 64, 66, 70, 128, 130});       // 64 / 128: the last bitmap field is full to its last bit
   long delay = g.pick({0, 1, 10, 10, -1});
   set_env(p, "PURGE_DELAY", delay); set_env(p, "ARENA_PURGE_MULT", g.pick({1, 10}));
   int nt = 2 + (int)g.below(3);
@@ -1696,6 +1756,7 @@ static const FamilyDef FAMILIES[] = {
   {"c09_collect_race", "C09", fam_c09_collect_race, 0, true},
   {"c07_threadstart", "C07", fam_c07_threadstart, 0, true},
   {"c09_oslist", "C09", fam_c09_oslist, 0, true},
+  {"c01_pagequeue", "C01", fam_c01_pagequeue, 1, false},
   {"c15_arenas", "C15", fam_c15_arenas, 0, true},
   {"c17_misuse", "C17", fam_c17_misuse, 1, true},
   {"c03_align", "C03", fam_c03_align, 1, false},
